@@ -262,6 +262,43 @@ def nest2_family():
     return out
 
 
+# ---- systematic family: a loop-variable-FREE subscript (with `/`, MOD, other variables) next to a carried distance
+FREE_PAIRS = [("n", "n"), ("n", "n-1"), ("n+1", "n"), ("n", "k"), ("3", "4"), ("n", "3"),
+              ("n/2", "n/2"), ("n/2", "(n+1)/2"), ("(n+1)/2", "n/2"), ("n/2", "n/2+1"), ("n/2+1", "n/2"),
+              ("(n+2)/2", "n/2"), ("n/3", "(n+1)/3"), ("(n+2)/4", "n/4"), ("n/2", "k/2"), ("(n+3)/2", "n/2"),
+              ("mod(n, 3)", "mod(n, 3)"), ("mod(n, 3)", "mod(n, 3)+1"), ("mod(n, 2)", "mod(k, 2)"),
+              ("mod(n, 2)+1", "mod(n, 2)"), ("n/2", "mod(n, 2)")]
+FREE_DI = [0, 1, -1]
+
+
+def free2_loop(order, di, pair, kind, nval):
+    """`do i`: write m(free_w, i), read / second write m(free_o, i+di) (or with the two subscripts swapped); the
+    store has n = nval (even and odd values make `n/2` and `(n+1)/2` coincide or differ)"""
+    fw, fo = pair
+    if order == 0:
+        w, o = f"m({fw}, i)", f"m({fo}, {_off('i', di)})"
+    elif order == 1:
+        w, o = f"m(i, {fw})", f"m({_off('i', di)}, {fo})"
+    else:                     # rank 1: only the loop-variable-free subscript
+        w, o = f"a({fw})", f"a({fo})"
+    body = [f"  {w} = {o} + 1"] if kind == "read" else [f"  {w} = 1", f"  {o} = 2"]
+    return [f"n = {nval}", f"k = {nval + 1}", "do i = 2, 5"] + body + ["enddo"]
+
+
+def free2_family():
+    out = []
+    for order in (0, 1):
+        for di in FREE_DI:
+            for pair in FREE_PAIRS:
+                for kind in ("read", "write2"):
+                    for nval in (4, 3):
+                        out.append((f"free2-{order}-{di}-{pair[0]}-{pair[1]}-{kind}-n{nval}",
+                                    free2_loop(order, di, pair, kind, nval)))
+    for pair in FREE_PAIRS:
+        out.append((f"free2-r1-{pair[0]}-{pair[1]}", free2_loop(2, 0, pair, "read", 4)))
+    return out
+
+
 def wrap_loop(rng, loop_lines):
     return "\n".join(HEADER + gen_init(rng) + ["  " + ln for ln in loop_lines] + ["end program p"]) + "\n"
 
@@ -273,6 +310,10 @@ def gen_source(rng, flavour=None):
         if rng.random() < 0.4:       # some noise after the nest
             lines = lines[:-1] + [f"  c(i) = b(i) + {rng.randint(0, 3)}", "enddo"]
         return wrap_loop(rng, lines), "nest2"
+    if flavour == "free2" or (flavour is None and rng.random() < 0.07):
+        lines = free2_loop(rng.choice((0, 1)), rng.choice(FREE_DI), rng.choice(FREE_PAIRS),
+                           rng.choice(("read", "write2")), rng.choice((2, 3, 4, 5)))
+        return wrap_loop(rng, lines), "free2"
     g = LoopGen(rng, flavour)
     init = gen_init(rng, (1, -1, 2) if g.flavour == "dside" else (0, 1, 2))
     return "\n".join(HEADER + init + g.loop() + ["end program p"]) + "\n", g.flavour
